@@ -507,7 +507,7 @@ func main() {
 		sn := observe(s.build())
 		comparisons++
 		for _, b := range sn.invariants() {
-			run.Violation(b.inv+":in-seed", fmt.Sprintf("%v: %s", s, b.detail), s.String())
+			run.Violation(b.inv+".in-seed", fmt.Sprintf("%v: %s", s, b.detail), s.String())
 		}
 		seen[fmt.Sprintf("s%d;", i)+sn.digest()] = true
 		states = append(states, state{parent: -1, seed: int8(i)})
@@ -564,7 +564,7 @@ func main() {
 					full := append(append([]int{}, evs...), e)
 					if r.panicked != nil {
 						run.Outcome("panic")
-						run.Violation("panic:"+r.branch, fmt.Sprintf("%v: panic: %v", describe(sd, full), r.panicked), describe(sd, full))
+						run.Violation("panic."+r.branch, fmt.Sprintf("%v: panic: %v", describe(sd, full), r.panicked), describe(sd, full))
 						continue
 					}
 					eff := "no-change"
@@ -576,7 +576,7 @@ func main() {
 						violStates++
 						mech := mechanism(sd, full)
 						for _, b := range r.broken {
-							run.Violation(b.inv+":"+mech, fmt.Sprintf("%v: %s; table after the last step: %s", describe(sd, full), b.detail, r.digest), describe(sd, full))
+							run.Violation(b.inv+"."+mech, fmt.Sprintf("%v: %s; table after the last step: %s", describe(sd, full), b.detail, r.digest), describe(sd, full))
 						}
 						continue // a state that violates the statement is not expanded
 					}
